@@ -24,6 +24,7 @@ PROP = Property(
     "C05", "other",
     kani=[KaniUnit(
         crate="mithril-stm",
+        jobs=14,
         attach=[(FILES["codec"], "contracts/mithril-stm/c05/stubs.rs", "verif_c05_stubs")] + [(FILES[k], "contracts/mithril-stm/c05/%s.rs" % k, "verif_c05_" + k) for k in FILES],
         anchors=[(FILES["proof"], "from_bytes_legacy", None), (FILES["sig_reg"], "from_bytes_legacy", None), (FILES["sig"], "from_bytes_legacy", None),
                  (FILES["path"], "from_bytes_legacy", None), (FILES["commitment"], "from_bytes_legacy", None), (FILES["avk"], "from_bytes_legacy", None),
